@@ -372,7 +372,7 @@ def plan_C06(tier):
     items += wide("fut", ["race"], tier)
     for n in range(5, 13):
         items += fut("race", "tuple", n, p=1, st=1, sp=1, dev=2 if tier == "quick" else 3)
-    items += never_items("fut", "race", tier)
+    items += never_items("fut", "race", tier) + lone_survivor_items("fut", "race", tier)
     return {"items": items, "bounds": "tuples 1..12, arrays {1,2,3,4,8,23,65}, Vecs {1..4,22..200}, FutureExt::race; never-completing siblings at every position for N<=3; all answers / wake schedules for N<=4; winner compared with logged poll order"}
 
 
@@ -391,7 +391,7 @@ def plan_C07(tier):
     items += wide("fut", ["race_ok"], tier)
     for n in range(5, 13):
         items += fut("race_ok", "tuple", n, p=1, st=1, sp=1, dev=2 if tier == "quick" else 3)
-    items += never_items("fut", "race_ok", tier)
+    items += never_items("fut", "race_ok", tier) + lone_survivor_items("fut", "race_ok", tier)
     return {"items": items, "bounds": "every Ok/Err assignment for N<=4, all failure orders; never-completing siblings at every position for N<=3; arrays/Vecs from 0, tuples 1..12; wide at d<=2"}
 
 
@@ -437,8 +437,24 @@ def never_items(kind, fam, tier):
     return out
 
 
+def lone_survivor_items(kind, fam, tier):
+    """all children but one never complete: the survivor must be started and its result delivered (every
+    position of every tuple arity - the tuple code is generated per arity - and arrays / Vecs of 4 and 8)"""
+    mk = fut if kind == "fut" else strm
+    out = []
+    shapes = [("tuple", n) for n in range(2, 13)] + [("array", 4), ("array", 8), ("vec", 4), ("vec", 8)]
+    for cont, n in shapes:
+        for j in range(n):
+            nvp = ".".join(str(i) for i in range(n) if i != j)
+            kw = dict(nvp=nvp, p=1, sp=1)
+            if kind == "str":
+                kw["i"] = 1
+            out += mk(fam, cont, n, **kw)
+    return out
+
+
 def plan_C08(tier):
-    return {"items": str_family("merge", tier, True, 2) + never_items("str", "merge", tier), "bounds": "tuples 0..12, arrays {0..4,8,23,65}, Vecs {0..4,22..200}, StreamExt::merge; per-input scripts over item / Pending / self-wake / early end with I<=2 (3 thorough), unequal lengths, all wake schedules for N<=3"}
+    return {"items": str_family("merge", tier, True, 2) + never_items("str", "merge", tier) + lone_survivor_items("str", "merge", tier), "bounds": "tuples 0..12, arrays {0..4,8,23,65}, Vecs {0..4,22..200}, StreamExt::merge; per-input scripts over item / Pending / self-wake / early end with I<=2 (3 thorough), unequal lengths, all wake schedules for N<=3"}
 
 
 def plan_C09(tier):
